@@ -21,7 +21,8 @@ def run(ctx):
         "UTF-16 drives: valid UTF-8 documents only (there is no UTF-16 image of an ill-formed UTF-8 text)",
     ]
     ctx.regen()
-    ctx.prove(["TsVerif.C09.Props"], "TsVerif/C09/Audit.lean")
+    ctx.extra_lean_dirs = ["C13", "C01"]   # the lexer port lives in C13/Lexer.lean; TreeLevel.lean uses C01's runDriver (Stream.lean)
+    ctx.prove(["TsVerif.C09.Props", "TsVerif.C09.TreeLevel"], "TsVerif/C09/Audit.lean")
     driver = ctx.build_driver("tsv-c09")
     explorer = ctx.cargo_bin("c09")
     cunit = ctx.cunit("cunit_c13")
@@ -63,6 +64,7 @@ def run(ctx):
     distinct = set()
     samples = []
     kinds, causes = {}, {}
+    sources = {}
     core_bad = 0
     for line in mout.split("\n"):
         if not line.strip():
@@ -98,6 +100,29 @@ def run(ctx):
             samples.append({"case": cid, "spec": sp[:200], "result": kv})
         if kv.get("core") == "bad":
             core_bad += 1
+        # per source of variation (the drive string of the spec): how often exercised, how often equal
+        drv = sp.split(" ")[-1] if sp else ""
+        srcs = []
+        if drv.startswith("hist:"):
+            srcs = ["history:" + o for o in sorted(set(drv[5:].split("+")))]
+        elif drv == "failed":
+            srcs = ["history:first-parse-failed(no language)"]
+        elif drv.startswith("cancel:"):
+            srcs = ["cancel:" + drv.split(":")[-1]]
+        elif drv.startswith("custom:"):
+            srcs = ["encoding:custom-decode-utf8"]
+        elif drv.startswith("u16"):
+            srcs = ["encoding:" + drv[:5] + (":point-addressed" if ":pt:" in drv else "") + (":chunked" if ":c" in drv else "")]
+        elif drv.startswith("pt:"):
+            srcs = ["chunking:point-addressed"]
+        elif drv[:1] in ("c", "s"):
+            srcs = ["chunking:" + ("fixed" if drv[0] == "c" else "splits")]
+        elif drv in ("log", "dot", "dotlog"):
+            srcs = ["debug:" + drv]
+        for so in srcs:
+            e = sources.setdefault(so, {"drives": 0, "equal": 0})
+            e["drives"] += 1
+            e["equal"] += kv["eq"] == "ok"
         if kv["eq"] == "ok":
             k["equal"] += 1
         else:
@@ -139,10 +164,12 @@ def run(ctx):
         "rule": "zoo languages x documents of four sizes (<= 9 bytes: every split; small; medium; ~1500 tokens: several progress callbacks) incl. multi-byte "
                 "characters, BOM and byte-mutated texts x drives: fixed 1/2/3/4/7-byte chunks, every split / random splits (also inside characters), "
                 "UTF-16LE/BE whole and chunked, parser histories of 1-5 operations (other document, same document, half document, other language, ranges set "
-                "and cleared, reset, cancelled parse, incremental parse), logger on, cancellation at progress-callback index k (all k when <= 12, else sampled) "
-                "followed by resume or by reset + fresh parse; one evaluation = one drive compared with the canonical drive by full dumps; every drive differs "
+                "and cleared with and without a parse, reset, cancelled parse (first / later callback, this / another document, cleared by reset or by set_language), "
+                "language flipped back and forth, logger / dot graphs on and off again, incremental parse), a parser whose first parse failed (no language), logger on, dot graphs on, "
+                "custom decode function decoding UTF-8, cancellation at progress-callback index k (all k when <= 12, else sampled) "
+                "followed by resume (whole or 4-byte chunks) or by reset + fresh parse; one evaluation = one drive compared with the canonical drive by full dumps; every drive differs "
                 "from the canonical one, so all are non-trivial; distinct by hash of (language, document, drive)",
-        "samples": samples, "drives_by_kind": kinds, "causes": causes,
+        "samples": samples, "drives_by_kind": kinds, "drives_by_source": sources, "causes": causes,
         "function_level": {"compared": f_cmp, "equal": f_cmp - f_bad, "lexer_states_compared": f_states},
         "correspondence": {"compared": f_cmp, "equal": f_cmp - f_bad},
         "judge": {"evaluated": evals, "passed": evals - judge_bad},
